@@ -142,6 +142,36 @@ Theorem C01_removed_children_gone : forall w ti n t ch,
 Proof. exact removed_children_gone. Qed.
 Print Assumptions C01_removed_children_gone.
 
+Theorem C01_removed_keep_gone : forall w ti n t s,
+  WFw w -> get_tree w ti = Some t -> get_node n (forest_of t) = Some s ->
+  fst (op_remove w ti n true false) = Ok [] ->
+  exists t', get_tree (snd (op_remove w ti n true false)) ti = Some t' /\
+             ~ In n (ids (forest_of t')) /\ ~ In n (reg t') /\
+             forall m, In m (ids (forest_of t)) -> m <> n -> In m (ids (forest_of t')).
+Proof. exact removed_keep_gone. Qed.
+Print Assumptions C01_removed_keep_gone.
+
+Theorem C01_removed_clones_gone : forall w ti n t d,
+  WFw w -> get_tree w ti = Some t -> did_of n (forest_of t) = Some d ->
+  exists t', get_tree (snd (op_remove w ti n false true)) ti = Some t' /\
+             forall c, In c (idx_get d (idx t)) -> ~ In c (ids (forest_of t')) /\ ~ In c (reg t').
+Proof. exact removed_clones_gone. Qed.
+Print Assumptions C01_removed_clones_gone.
+
+(* a node of one tree is not a node of another tree ("owner of every reachable node is the tree") *)
+Theorem C01_trees_disjoint : forall w i j ti tj n, WFw w -> i <> j -> get_tree w i = Some ti -> get_tree w j = Some tj ->
+  In n (ids (forest_of ti)) -> ~ In n (ids (forest_of tj)).
+Proof. exact trees_disjoint. Qed.
+Print Assumptions C01_trees_disjoint.
+
+(* derived parent pointers - true by construction of the model, recorded: every node has exactly one
+   parent (the root 0 or a node of the tree, never itself) and occurs once in that parent's child list *)
+Theorem C01_parent_unique : forall t n, WF t -> In n (ids (forest_of t)) ->
+  exists p ch, parent_of n (forest_of t) = Some p /\ (p = 0 \/ In p (ids (forest_of t))) /\ p <> n /\
+               children_of p (forest_of t) = Some ch /\ In n (map rid ch) /\ NoDup (map rid ch).
+Proof. exact parent_total_unique. Qed.
+Print Assumptions C01_parent_unique.
+
 (* ---- non-vacuity: a reachable world with two trees, clones, a moved branch, a deep copy ---- *)
 Definition c01_dd (z : Z) : dat := D z z z false [z].
 Definition c01_ops : list op :=
